@@ -5,7 +5,7 @@ ASSUMPTIONS = ["self-composition: each scenario is executed twice inside one que
                "and every heap block is arbitrary per allocation in the CBMC memory model, so 'different garbage in fresh memory' is a symbolic input",
                "input orderings / path spellings: the two listing orders of two files, plain and ./ spellings"]
 OUTSIDE = ["address-space layout beyond 'no pointer value may reach an output byte without a failed equality'", "scenarios on shapes larger than those listed; tileset pictures (C09 already compares the written bytes with a description that leaves no free byte)",
-           "uninitialised reads the optimiser has already folded to a constant at -O1 (the harness avoids this by keeping the garbage in memory the code under test did not write)"]
+           "never-written locals that clang -O1 turns into IR undef are translated as fresh arbitrary values (ir2c --undef-nondet); natively the harness scribbles the stack with a solver-chosen pattern before each run and fresh heap blocks carry per-allocation garbage"]
 LEVEL_TEXT = ("Bounded model checking of a two-run self-composition of the real serialisers and parsers: the solver looks for ANY content of fresh memory under which two runs on the same logical input differ in an output byte or a parsed field.")
 LEVEL_NOTE = "Counterexamples replay natively: the garbage bytes are part of the trace."
 
@@ -28,4 +28,6 @@ def queries(tier):
                     desc="VOL created from the same two files listed in both orders, with and without ./: byte-identical archives"))
     qs.append(Query("clm_create_orders", "C18_determinism.cpp", "h_clm_create", {}, unwind=200, vfs_n=6, vfs_cap=128, timeout=900,
                     desc="CLM created twice from the same two WAV files (both orders, ./ spelling) and a member extracted from each: byte-identical archives and WAV files"))
+    for q in qs:
+        q.ir2c_opts = ["--undef-nondet"]      # a value the optimiser proved never-written (IR undef) is arbitrary, and independently so at each use
     return qs
